@@ -3145,7 +3145,9 @@ class FuncProcessLines(ValueFunc):
             inp = inparg.asInput()
 
             def cb(line):
-                args = Args(pos).addArg(callback.getArgNames()[0], line)
+                args = Args(pos).addArg(
+                    callback.getArgNames()[0], ValueString(line)
+                )
                 return callback.execute(args, env, pos)
 
             return ValueInt(inp.process(cb))
